@@ -243,6 +243,9 @@ struct Answer {
 }
 
 const WATCHDOG_S: u64 = 20;
+/// inputs that went unanswered in this run; after 16 of them the watchdog drops to 4 s, so that a
+/// tree on which most inputs hang still finishes the run (and reports) in minutes
+static UNANSWERED: std::sync::atomic::AtomicUsize = std::sync::atomic::AtomicUsize::new(0);
 /// how long a worker that announced more than two million range elements is given to finish
 const AFTER_NOTICE_S: u64 = 4;
 
@@ -271,7 +274,8 @@ fn ask(src: &str) -> Answer {
         let mut range_notice = None;
         let mut range_level = 0usize;
         let mut solver_stage: Option<String> = None;
-        let mut deadline = std::time::Instant::now() + Duration::from_secs(WATCHDOG_S);
+        let watchdog = if UNANSWERED.load(std::sync::atomic::Ordering::SeqCst) > 16 { AFTER_NOTICE_S } else { WATCHDOG_S };
+        let mut deadline = std::time::Instant::now() + Duration::from_secs(watchdog);
         loop {
             let left = deadline.saturating_duration_since(std::time::Instant::now());
             match worker.rx.recv_timeout(left) {
@@ -297,6 +301,7 @@ fn ask(src: &str) -> Answer {
                     return Answer { end, range_level, range_notice, solver_stage };
                 }
                 Err(std::sync::mpsc::RecvTimeoutError::Timeout) => {
+                    UNANSWERED.fetch_add(1, std::sync::atomic::Ordering::SeqCst);
                     let _ = worker.child.kill();
                     let _ = worker.child.wait();
                     *w = None;
@@ -350,6 +355,7 @@ impl Prop for C18 {
             2 => any::<u16>().prop_map(|at| Mutation::Duplicate { at }),
             2 => any::<u16>().prop_map(|at| Mutation::Swap { at }),
             1 => any::<u16>().prop_map(|at| Mutation::GrowTuple { at }),
+            4 => (any::<u16>(), any::<u16>()).prop_map(|(at, with)| Mutation::ReplaceRange { at, with }),
         ];
         (base, prop_oneof![3 => proptest::collection::vec(m.clone(), 0..=1), 4 => proptest::collection::vec(m.clone(), 1..=2), 2 => proptest::collection::vec(m, 2..=5)]).prop_map(|(base, muts)| Case { base, muts }).boxed()
     }
@@ -389,7 +395,7 @@ impl Prop for C18 {
         serde_json::to_string(&c.text()).unwrap()
     }
     fn rule(&self) -> String {
-        "input strings up to 4 KiB from four sources: grammar-derived programs (C06's data-driven pieces, C03's typed models, literal programs), the same programs after up to five token mutations (replace a number by a numeric extreme and stay a program, replace a name by another name of the text, replace an index of an indexed name by such a number or an expression over it, replace an operand by a numeric extreme - i64/u64/i32 limits and their successors, 1e308-sized and 1e-30 literals, huge and reversed ranges, depth-64 parentheses, deep indexes and nested arrays, empty and self-looping graphs, stray brackets and keywords -, insert, delete, duplicate, swap), raw byte noise read as lossy UTF-8, and bracket/quote soup. Each input is run in a worker process (4 GiB address-space limit, 20 s watchdog) through parse, Display of the parsed program, format (+ re-parse), type_check (string and structured, with every rendering of the error), transform, parse_and_transform, Display of the model, linearize, Display and LP export of the linear model, into_standard_form, into_tableau + solve(10000) for continuous models, auto_solver when there are <= 12 integer variables. A panic in any stage, a worker that dies (abort, stack overflow, allocation failure) or that does not answer within the watchdog is a violation. Non-trivial = the input got past parse, or is a mutated valid program. Distinct = distinct input text.".into()
+        "input strings up to 4 KiB from four sources: grammar-derived programs (C06's data-driven pieces, C03's typed models, literal programs), the same programs after up to five token mutations (replace a number by a numeric extreme and stay a program, replace a whole range a..b by a range at the limits of the integer types (empty, reversed, singleton, inclusive up to i64::MAX / u64::MAX, fractional bounds), replace a name by another name of the text, replace an index of an indexed name by such a number or an expression over it, replace an operand by a numeric extreme - i64/u64/i32 limits and their successors, 1e308-sized and 1e-30 literals, huge and reversed ranges, depth-64 parentheses, deep indexes and nested arrays, empty and self-looping graphs, stray brackets and keywords -, insert, delete, duplicate, swap), raw byte noise read as lossy UTF-8, and bracket/quote soup. Each input is run in a worker process (4 GiB address-space limit, 20 s watchdog) through parse, Display of the parsed program, format (+ re-parse), type_check (string and structured, with every rendering of the error), transform, parse_and_transform, Display of the model, linearize, Display and LP export of the linear model, into_standard_form, into_tableau + solve(10000) for continuous models, auto_solver when there are <= 12 integer variables. A panic in any stage, a worker that dies (abort, stack overflow, allocation failure) or that does not answer within the watchdog is a violation. Non-trivial = the input got past parse, or is a mutated valid program. Distinct = distinct input text.".into()
     }
     fn assumptions(&self) -> Vec<String> {
         vec![
